@@ -31,17 +31,39 @@ Definition terminated (input : str) : str :=
   | c :: _ => if (c =? cLF)%N then input else input ++ [cLF]
   end.
 
-Definition tok_ok (text : str) (t : token) : Prop := (t_line t, t_col t) = linecol text (t_off t).
+(* the runes of [text] from index [off] on start with [s] *)
+Definition text_at (text : str) (off : nat) (s : str) : Prop := firstn (length s) (skipn off text) = s.
 
-Definition err_ok (text : str) (e : perr) : Prop :=
-  match e_pos e, e_subject e with
-  | Some lc, Some off => lc = linecol text off
-  | _, _ => True
+(* a token carries the true position of its ghost offset; for unquoted and punctuation tokens the
+   ghost offset really is where the token's text stands in the input (and that text is not empty) *)
+Definition tok_ok (text : str) (t : token) : Prop :=
+  (t_line t, t_col t) = linecol text (t_off t) /\
+  match t_code t with
+  | TUnquoted | TChar _ => text_at text (t_off t) (t_text t) /\ t_text t <> []
+  | _ => True
   end.
 
+(* an error about a particular place of the text (every kind but "too many errors", "unexpected EOF",
+   "missing N closing braces") prints a position, and it is the true position of that place *)
+Definition err_ok (text : str) (e : perr) : Prop :=
+  match e_kind e with
+  | ETooMany | EUnexpectedEOF | EMissingBraces => True
+  | _ => exists off, e_subject e = Some off /\ e_pos e = Some (linecol text off)
+  end.
+
+(* a statement (other than the parser's error-recovery placeholder, keyword "") reports the true
+   position of the first rune of its keyword, and the keyword is what stands there *)
 Fixpoint stmt_ok (text : str) (s : stmt) : Prop :=
   match s with
   | Stmt kw _ _ ln cl off subs =>
-      (kw <> [] -> (ln, cl) = linecol text off) /\
+      (kw <> [] -> (ln, cl) = linecol text off /\ text_at text off kw) /\
       (fix all (l : list stmt) : Prop := match l with [] => True | x :: r => stmt_ok text x /\ all r end) subs
+  end.
+
+(* no statement of the forest is the placeholder *)
+Fixpoint stmt_real (s : stmt) : Prop :=
+  match s with
+  | Stmt kw _ _ _ _ _ subs =>
+      kw <> [] /\
+      (fix all (l : list stmt) : Prop := match l with [] => True | x :: r => stmt_real x /\ all r end) subs
   end.
